@@ -15,7 +15,7 @@ V5 refusal restores: the refusing path undoes every write since entry
 import ast
 
 from ..index import AnalysisError, walk_no_nested
-from ..norm import Affine, Canon, Lit, Logic, affine, effects_of_event, minmax_term
+from ..norm import Affine, Canon, Lit, Logic, affine, effects_of_event, minmax_term, effects_along, path_effects
 from ..paths import Frame, bind_args, cached_paths, function_paths
 from .common import call_name, short, stmt_contains
 
@@ -352,7 +352,7 @@ def check(repo, res, tier):
                 gfr = Frame(g)
                 stored = "%s.observations['stored']" % src_cls
                 slot = "%s.observations['transfer']" % src_cls
-                effs = [ef for p in cached_paths(g) for e in p.events for ef in effects_of_event(canon, e)]
+                effs = [ef for p in cached_paths(g) for ef in path_effects(canon, p.events)]
                 pops = [ef for ef in effs if ef.loc == stored and ef.kind == 'pop']
                 sets = [ef for ef in effs if ef.loc == slot and ef.kind == 'assign']
                 okp = len(pops) == 1 and len(sets) == 1 and sets[0].arg.startswith(stored)
@@ -474,8 +474,8 @@ def refusal(repo, res, canon, f, src_cls):
         n += 1
         writes = {}
         popped = appended = 0
-        for e in p.events:
-            for ef in effects_of_event(canon, e):
+        for e, _efs in effects_along(canon, p.events):
+            for ef in _efs:
                 if ef.loc == stored and ef.kind == 'pop':
                     popped += 1
                 elif ef.loc == stored and ef.kind == 'append':
